@@ -1,4 +1,6 @@
 //! Miri entry point: the same kernel-level drivers as `rlv`, on tiny workloads.
+#[path = "../../harness/src/iso.rs"]
+mod iso;
 #[path = "../../harness/src/kern.rs"]
 mod kern;
 #[path = "../../harness/src/lab.rs"]
@@ -25,6 +27,7 @@ fn main() {
     let rc = match args.get(1).map(|s| s.as_str()) {
         Some("ops") => kern::ops_main(&args[2..]),
         Some("values") => vals::main(&args[2..]),
+        Some("iso") => iso::iso_main(&args[2..]),
         Some("col") => {
             let rt = tokio::runtime::Builder::new_current_thread().build().unwrap();
             rt.block_on(lab::col_main(&args[2..]))
